@@ -123,7 +123,30 @@ func init() {
 		RequireCovers: []string{"round.subnormal", "round.overflow", "round.inexact", "add.subnormal", "mul.overflow", "quo.subnormal", "quo.inexact"}}
 	checkDefs["C02"] = &CheckDef{Prop: "C02", Enable: []string{"C02."},
 		Instances: func(tier string) []Instance {
-			return append(arithInstances(tier, "zero"), divIntInstances(tier, "zero")...)
+			out := append(arithInstances(tier, "zero"), divIntInstances(tier, "zero")...)
+			if tier == "thorough" {
+				out = append(out, p0Instances(tier)...)
+				out = append(out, quantizeInstances(tier, "zero")...)
+			} else {
+				qb := p("Pmin", 1, "regime", 0, "traps", "zero", "K", 3, "W", 3)
+				for _, m := range []string{"half_even", "up", "floor"} {
+					out = append(out, inst("VerifQuantize", 5, qb, "mode", m, "op", "quantize"))
+					out = append(out, inst("VerifQuantize", 1, qb, "mode", m, "op", "rti_exact"))
+				}
+			}
+			out = append(out, ctxParseInstances(tier, "zero")[:4]...)
+			// Context.Reduce flags, and the Division*/InvalidOperation conditions on special operands
+			for _, m := range []string{"half_even", "floor"} {
+				out = append(out, inst("VerifReduce", 4, p("op", "ctx", "K", 4, "W", 4, "Pmin", 1, "regime", 0, "traps", "zero", "mode", m)))
+			}
+			sb := p("Pmin", 1, "regime", 0, "traps", "zero", "full", 0, "mode", "half_even", "K", 2, "W", 2)
+			for _, op := range []string{"add", "sub", "mul", "quo", "quoint", "rem"} {
+				out = append(out, inst("VerifSpecialBinary", 2, sb, "op", op))
+			}
+			for _, op := range []string{"round", "reduce", "quantize", "rti_exact", "sqrt"} {
+				out = append(out, inst("VerifSpecialUnary", 1, sb, "op", op))
+			}
+			return out
 		},
 		PathModels: true, PathModelSample: 40, Stubs: stubsLevelA, Bounds: boundsArith, Outside: outsideArith, Assumptions: assumeCommon}
 	checkDefs["C07"] = &CheckDef{Prop: "C07", Enable: []string{"C07."},
@@ -140,6 +163,10 @@ func init() {
 			// (b) ErrDecimal wrappers (iterative functions: special operands only)
 			out = append(out, twoRunInstances(tier, "VerifErrDecimal", "sym", []string{"half_even"}, []string{"sqrt", "exp", "ln", "log10"})...)
 			out = append(out, inst("VerifErrDecimal", 2, p("Pmin", 1, "regime", 0, "traps", "sym", "full", 0, "mode", "half_even", "op", "pow", "K", 2, "W", 2)))
+			// errors that carry no flags (zero precision in the division operations) must be kept too
+			for _, op := range []string{"quo", "quoint", "exp"} {
+				out = append(out, inst("VerifErrDecimal", 2, p("Pmin", 0, "regime", 0, "traps", "sym", "full", 0, "mode", "half_even", "op", op, "K", 1, "W", 1)))
+			}
 			// (c) iterative functions on concrete operands under every trap set
 			out = append(out, compositeInstances(tier)...)
 			// (d) the error contract on the oracle-checked harnesses at larger digit counts
@@ -184,23 +211,40 @@ func init() {
 	checkDefs["C06"] = &CheckDef{Prop: "C06", Enable: []string{"C06.", "W.write"},
 		Instances: func(tier string) []Instance {
 			// (iterative functions: write monitor on concrete operands under every trap set)
-			return append(twoRunInstances(tier, "VerifDestIndep", "zero", twoModes(tier), nil), compositeInstances(tier)...)
+			out := append(twoRunInstances(tier, "VerifDestIndep", "zero", twoModes(tier), nil), compositeInstances(tier)...)
+			// parsing into two arbitrary destinations
+			for _, n := range []int{3, 4, 5} {
+				out = append(out, inst("VerifParseDest", 2*n, p("n", n, "Pmin", 1, "regime", 0, "traps", "zero", "mode", "half_even", "K", 3, "W", 3)))
+			}
+			return out
 		},
 		PathModels: true, PathModelSample: 15, Stubs: stubsLevelA, Assumptions: assumeCommon, Bounds: boundsTwoRun,
 		Outside: []string{"history independence is obtained by induction: no operation writes package-level state (write monitor on every store of every explored path), hence the outcome is a function of operands and context alone; it is not explored as sequences",
 			"composite functions (Sqrt..Pow)"}}
-	checkDefs["C18"] = &CheckDef{Prop: "C18", Enable: []string{"W.write"},
+	checkDefs["C18"] = &CheckDef{Prop: "C18", Enable: []string{"W.write", "C18."},
 		Instances: func(tier string) []Instance {
 			out := twoRunInstances(tier, "VerifDestIndep", "zero", twoModes(tier), nil)
 			out = append(out, inst("VerifCmp", 2, p("K", 4, "full", 1)), inst("VerifCmpTotal", 2, p("K", 4, "full", 1)))
 			out = append(out, numDigitsInstances("quick")[:6]...)
 			out = append(out, compositeInstances(tier)...)
+			// Level B: the BigInt methods that Context operations apply to shared operands do not
+			// write the operands' representation (the inline array is aliased through unsafe)
+			for _, op := range []string{"add", "sub", "mul", "quo", "rem"} {
+				i := inst("VerifBigBinary", 4, p("op", op, "pat", "none", "maxheap", 1, "feasTimeout", 300))
+				i.LevelB = true
+				out = append(out, i)
+			}
+			for _, w := range []string{"cmp", "unary"} {
+				i := inst("VerifBigScalar", 3, p("what", w, "maxheap", 2, "feasTimeout", 300))
+				i.LevelB = true
+				out = append(out, i)
+			}
 			return out
 		},
 		PathModels: false, Stubs: stubsLevelA, Assumptions: append([]string{
 			"reduction: two concurrent calls can race or influence each other only through memory both can reach (shared Context, shared operands, package-level state); a data race needs a write to such memory. The check decides that no feasible path of any encoded method stores into a context, operand or package-level object; under the Go memory model every interleaving is then race-free and each call reads what it reads alone",
 			"math/big does not write its operands and fmt/strconv are goroutine-safe (stub boundary)"}, assumeCommon...), Bounds: boundsTwoRun,
-		Outside: []string{"composite functions (Sqrt..Pow) and their ErrDecimal/WithPrecision plumbing", "Level-B BigInt internals (inner/updateInner through unsafe) are covered by C16's operand-unchanged assertions, not here"}}
+		Outside: []string{"composite functions (Sqrt..Pow) and their ErrDecimal/WithPrecision plumbing", "Level-B BigInt internals: operands of Add/Sub/Mul/Quo/Rem/Cmp/CmpAbs/Sign/IsInt64/... are bit-for-bit unchanged from arbitrary valid representations (same harnesses as C16)"}}
 	checkDefs["C08"] = &CheckDef{Prop: "C08", Enable: []string{"C08."},
 		Instances: func(tier string) []Instance {
 			var out []Instance
